@@ -152,6 +152,36 @@ impl Sut for RsSut {
                     }
                 }
             }
+            "ext" => {
+                // Extend::extend with `count` further stream positions, through iterators whose size hints are exact
+                // (a range), an over-estimate (a filtered longer range) or absent (from_fn): adding n items one way
+                // or the other must be the same thing
+                let count = op["count"].as_u64().unwrap_or(0);
+                let (a, b) = (self.n, self.n + count);
+                script_load(&[]);
+                script_fallback(Some(op["fallback"].as_u64().unwrap_or(1)));
+                let kind = op["hint"].as_str().unwrap_or("exact").to_string();
+                let r = guarded(|| match kind.as_str() {
+                    "over" => self.r.extend((a..b + 5).filter(move |x| *x < b)),
+                    "none" => {
+                        let mut x = a;
+                        self.r.extend(std::iter::from_fn(move || if x < b { x += 1; Some(x - 1) } else { None }))
+                    }
+                    _ => self.r.extend(a..b),
+                });
+                script_load(&[]);
+                match r {
+                    Ok(()) => {
+                        self.n = b;
+                        self.gap_u = (0, 1);
+                        "ok".into()
+                    }
+                    Err(m) => {
+                        rec["panic"] = json!(m);
+                        "panic".into()
+                    }
+                }
+            }
             "clear" => match guarded(|| self.r.clear()) {
                 Ok(()) => {
                     self.n = 0;
@@ -202,7 +232,15 @@ pub fn drive(args: &[String]) {
             let k = [1u64, 2, 3, 10, 64, 100][rng.below(6) as usize];
             let n = (4 * k + 10 + rng.below(max_n)).min(max_n.max(4 * k + 10));
             let mode = rng.below(5);
-            for i in 0..n {
+            // one scenario in two starts with an Extend::extend during the fill-up phase (ending before, at, or past k)
+            let mut i0 = 0u64;
+            if rng.chance(1, 2) {
+                let count = rng.below(k + 3);
+                let hint = ["exact", "over", "none"][rng.below(3) as usize];
+                steps.push(json!({"obj": "a", "op": {"name":"ext","count": count, "hint": hint, "fallback": rng.next()}}));
+                i0 = count;
+            }
+            for i in i0..n {
                 let words: Vec<Value> = (0..3)
                     .map(|_| {
                         let w = match mode {
@@ -219,6 +257,10 @@ pub fn drive(args: &[String]) {
                 steps.push(json!({"obj": "a", "op": {"name":"add","script": words, "fallback": fb, "skip": !record}}));
                 if rng.below(if n <= 400 { 60 } else { 4000 }) == 0 {
                     steps.push(json!({"obj": "a", "op": {"name":"clear"}}));
+                    if rng.chance(1, 2) {
+                        let hint = ["exact", "over", "none"][rng.below(3) as usize];
+                        steps.push(json!({"obj": "a", "op": {"name":"ext","count": rng.below(k + 3), "hint": hint, "fallback": rng.next()}}));
+                    }
                 }
             }
             out.put(&json!({"sc": sci, "cfg": {"kk": k}, "steps": steps}));
